@@ -207,6 +207,7 @@ func seqProfile0(prop, tier string) *SeqProfile {
 	case "C20":
 		g.WBackup = 22
 		g.ROPct = 0
+		g.Versions = false // (migration between backups is not "only appended to")
 		g.WPublish = 60
 		q := []string{"n", "a", "b", "g"}
 		return &SeqProfile{Prop: prop, Gen: g, NRandom: tierN(tier, 300, 40000), Module: "TraceAbs.tla", Cfg: "TraceAbs.cfg",
@@ -354,7 +355,7 @@ func seqProfile0(prop, tier string) *SeqProfile {
 		g.WReopen = 18
 		g.WDelete, g.WDeleteMulti = 22, 6
 		return &SeqProfile{Prop: prop, Gen: g, NRandom: tierN(tier, 400, 50000), Module: "TraceAbs.tla", Cfg: "TraceAbs.cfg",
-			Obs:  Obs{Scan: true, Next: true, Layout: true, JudgeOpen: true, Maxes: []int64{32}},
+			Obs:  Obs{Scan: true, Next: true, Layout: true, JudgeLayout: true, JudgeOpen: true, Maxes: []int64{32}},
 			Rule: "C17: per-file format versions (projected by the reference codec) before/after every Open, Publish, Delete and Migrate judged against the version rules; scan and NextOffset after every step.",
 		}
 	}
